@@ -483,6 +483,7 @@ func init() {
 				runC12DeepStack(c, &res)
 			default:
 				runC12Malformed(c, &res)
+				runC12ExactGas(c, &res)
 			}
 			return
 		},
@@ -505,4 +506,63 @@ func init() {
 			return map[string]int64{"pairs": 300, "journal_steps": 3000, "aligned_steps": 50000, "gas_equations_checked": 40, "malformed_cases": 150}
 		},
 	})
+}
+
+// runC12ExactGas: the fee of a journal instruction is all it needs. A frame is given exactly the gas its program
+// consumes with ample gas, and 1, 700, 1500, 2299 more: it must finish the same way and use the same amount (a fee
+// that depends on how much gas is left - a stipend-style sentry, a reserve - would show here).
+func runC12ExactGas(c Case, res *CaseResult) {
+	fork := h.Fork(c.P[0])
+	progs := map[string]func(a *h.Asm){
+		"register+journal value": func(a *h.Asm) {
+			a.MstoreName(memJ, []byte("x")).Journal(h.VSVJNAL, h.U(memJ), h.U(20), h.U(0), jTypU)
+			a.Journal(h.VVJNAL, h.U(20), h.U(0), h.U(32), jTypU)
+		},
+		"register+journal string": func(a *h.Asm) {
+			a.MstoreName(memJ, []byte("s")).Journal(h.RSVJNAL, h.U(memJ), h.U(22), jTypStr)
+			a.Journal(h.VRJNAL, h.U(22), jTypStr)
+		},
+		"mapping element": func(a *h.Asm) {
+			a.MstoreName(memJ, []byte("m")).Journal(h.RSVJNAL, h.U(memJ), h.U(23), jTypMap)
+			a.Journal(h.IVVVJNAL, h.U(23), jMapSlot(1, 23), h.U(1), h.U(0), jTypU, jTypMap)
+			a.Journal(h.IVVRJNAL, h.U(23), jMapSlot(2, 23), h.U(2), jTypStr, jTypMap)
+			a.Journal(h.VVJNAL, jMapSlot(1, 23), h.U(0), h.U(32), jTypU)
+		},
+		"keyed elements": func(a *h.Asm) {
+			a.MstoreName(memJ, []byte("arr")).Journal(h.RSVJNAL, h.U(memJ), h.U(24), jTypArr)
+			a.MstoreName(memJ+0x40, []byte("key")).Journal(h.IRVVJNAL, h.U(24), jMapSlot(7, 24), h.U(memJ+0x40), h.U(0), jTypU, jTypArr)
+			a.Journal(h.IRVRJNAL, h.U(24), jMapSlot(8, 24), h.U(memJ+0x40), jTypStr, jTypArr)
+		},
+	}
+	for name, emit := range progs {
+		a := h.NewAsm()
+		emit(a)
+		a.Op(h.STOP)
+		w := h.BaseWorld([][]byte{a.Bytes()})
+		run := func(gas uint64) (h.InvokeResult, int) {
+			fs := h.NewForkSession(w, h.EnvSpec{Fork: fork}, h.ForkOpts{Debug: true, RecSteps: true, LightMem: true})
+			ir := fs.Invoke(h.TxSpec{Entry: h.ECall, From: h.Sender, To: h.ContractAddr(0), Gas: gas})
+			n := 0
+			for i := range fs.L.Events {
+				if e := &fs.L.Events[i]; e.K == h.KStep && h.IsJournalOp(e.Op) && e.Err == "" {
+					n++
+				}
+			}
+			return ir, n
+		}
+		ample, nj := run(1_000_000)
+		if ample.Panic != "" || ample.Err != nil {
+			res.Fail(Key("journal-op-failed", "exactgas"), fmt.Sprintf("a well-formed journal program failed with ample gas: %v %s", ample.Err, firstLine(ample.Panic)), name, fork.String())
+			continue
+		}
+		used := 1_000_000 - ample.Gas
+		for _, slack := range []uint64{0, 1, 700, 801, 1500, 2299, 2300, 2301} {
+			ir, n := run(used + slack)
+			res.Count("exact_gas_runs", 1)
+			res.Evals++
+			if ir.Panic != "" || ir.Err != nil || ir.Gas != slack || n != nj {
+				res.Fail(Key("fee-depends-on-gas-left", "exactgas"), fmt.Sprintf("program '%s' consumes %d gas with ample gas; given %d+%d it ended with err=%v, %d gas left, %d of %d journal instructions executed", name, used, used, slack, ir.Err, ir.Gas, n, nj), fork.String())
+			}
+		}
+	}
 }
